@@ -155,6 +155,16 @@ def run(tier, seed):
                 ev_ = np.array([rng.choice([0.0, 0.25, 0.5, 1.0]) for _ in args[3]])
                 rr = np.array([rng.choice([0.0, 0.5, 1.0]) for _ in args[1]])
                 record("melody.evaluate", call(me.melody.evaluate, *args, est_voicing=ev_, ref_reward=rr), args, {"est_voicing": ev_.tolist(), "ref_reward": rr.tolist()})
+                # soft reward anti-correlated with the estimate's voicing, pitch tracked exactly (the overall accuracy's two
+                # terms are both at their largest)
+                rr2 = np.array([rng.choice([0.0625, 0.125, 0.25, 1.0]) for _ in args[1]])
+                ev2 = (rr2 == 1.0).astype(float)
+                a2 = (args[0], np.abs(args[1]) + 55.0, args[0].copy(), np.abs(args[1]) + 55.0)
+                record("melody.evaluate", call(me.melody.evaluate, *a2, est_voicing=ev2, ref_reward=rr2), a2, {"est_voicing": ev2.tolist(), "ref_reward": rr2.tolist()})
+                v2 = me.melody.to_cent_voicing(*a2, est_voicing=ev2, ref_reward=rr2)
+                record("melody.measures", call(lambda: (me.melody.voicing_recall(v2[0], v2[2]), me.melody.voicing_false_alarm(v2[0], v2[2]),
+                                                        me.melody.raw_pitch_accuracy(*v2), me.melody.raw_chroma_accuracy(*v2),
+                                                        me.melody.overall_accuracy(*v2))), a2, {"est_voicing": ev2.tolist(), "ref_reward": rr2.tolist()})
             if name == "chord":
                 nn = rng.randint(1, 6)
                 cmpv = np.array([rng.choice([1.0, 0.0, -1.0]) for _ in range(nn)])
